@@ -201,7 +201,12 @@ structure Meas where
   value : Value
 deriving DecidableEq, Repr
 
-/-- a data point handed to `persist_data_point` -/
+/-- the order in which `_persists_data_point_in_open_file` writes the measurements of a data point: the
+`total` last, whatever position the adapter gave it (the loader takes the total for the end of a data point) -/
+def totalLast (ms : List Meas) : List Meas :=
+  ms.filter (fun m => m.crit ≠ "total") ++ ms.filter (fun m => m.crit = "total")
+
+/-- a data point as `persist_data_point` writes it (measurements in written order) -/
 structure DP where
   inv : Nat
   it : Nat
